@@ -29,6 +29,9 @@ def _small(call):
     return call
 
 
+BE = "py" if os.environ.get("YARL_NO_EXTENSIONS") else "c"
+
+
 def main():
     driver_name, out_prefix, si, sn, shard_size, params = sys.argv[1:7]
     si, sn, shard_size = int(si), int(sn), int(shard_size)
@@ -61,6 +64,7 @@ def main():
             n += 1
             # ids are unique across drivers, back ends and slices
             rec["id"] = f"{tag}.{si}.{n}"
+            rec["be"] = BE
             buf.append(rec)
         if len(buf) >= shard_size:
             Path(f"{out_prefix}-{si:02d}-{k:04d}.json").write_text(json.dumps(buf, separators=(",", ":")))
